@@ -1,16 +1,22 @@
 (** C01 — Advection integrates the velocity field with the scheme's order of accuracy.
 
-    Full statement of the property's second sentence (NOT proved here, see C01_order_partial):
+    Full statement of the property's second sentence:
       for every smooth velocity field the end point of a trajectory computed with EF / RK2 / RK4
       converges to the exact flow map with order 1 / 2 / 4 when the time step is refined.
-    That needs Butcher's theorem (order conditions => local error O(h^(p+1))) and a Gronwall argument
-    for arbitrary C^(p+1) vector fields, which are not available in the installed libraries.
+    Status: PROVED for Euler forward (T7, C01_EF_converges_general: every field Lipschitz in space, every
+    twice differentiable solution, explicit constant, scalar case); for RK2 and RK4 the stability half
+    (Lipschitz increment functions with explicit constants) and the Lax-type convergence theorem are proved,
+    and orders 2 and 4 follow from ONE remaining hypothesis, the local truncation bound C h^(p+1) of the scheme
+    along the exact solution (C01_RK_converges_general_partial).  That bound needs Butcher's theorem (order
+    conditions => local error O(h^(p+1)) for arbitrary C^(p+1) fields), which is not available in the installed
+    libraries; it is proved here for linear fields and for pure time quadrature.
     What is proved: T1 the step IS the Runge-Kutta step of the scheme's Butcher tableau with the stage
     velocities taken at the stage positions and fractional times (first sentence of the property,
     exactly); T2 the tableaux satisfy all order conditions through order 1 / 2 / 4; T3 exactness to
     order p on linear fields; T4 exactness as quadrature rules in time (degree 0 / 1 / 3);
     T5 the same for ladim.analytical.get_velocity1/2/4 (get_velocity2 for every s <> 0);
-    T6 convergence with order p (explicit error constant) on every linear field. *)
+    T6 convergence with order p (explicit error constant) on every linear field;
+    T7 consistency + stability => convergence for arbitrary Lipschitz fields (scalar case). *)
 From Coq Require Import ZArith QArith List Bool Reals Qreals.
 From Ladim Require Import Base.Num Model.Tracker Proofs.TrackerProofs Proofs.SchemeProofs Proofs.ConvergenceProofs Model.ForcingTime Proofs.ComposeTimeProofs.
 Import ListNotations.
@@ -151,3 +157,107 @@ Definition C01_order_partial := (C01_rk4_is_tableau_step, C01_tableau_orders, C0
 Example C01_ex :
   fst (candidate 1 1 (RK4 (vlin (1#5) (-1)) 1 1 0 100 0 100) 7 4) == 7 + 2 * ((1#5) + (1#50) + (1#750) + (1#15000)).
 Proof. vm_compute. reflexivity. Qed.
+
+(** * T7 — convergence for ARBITRARY (non-linear, time-dependent) fields, Lipschitz in space (scalar case)
+
+    Proofs/GeneralConvergenceProofs.v: the classical "consistency + stability => convergence" theorem.
+    [one_step_iter Phi h t0 n x0] iterates x_{k+1} = x_k + h * Phi (t0 + k h) x_k; [Phi_EF], [Phi_RK2],
+    [Phi_RK4] are the increment functions of the three schemes over R, and the model's step IS such a step
+    ([C01_model_steps_are_real_steps]).  Real-number axioms of the standard library / Coquelicot appear in
+    Print Assumptions. *)
+From Coq Require Import Reals Qreals.
+From Coquelicot Require Import Coquelicot.
+From Ladim Require Import Proofs.GeneralConvergenceProofs.
+
+(** stability: the increment functions of RK2 and RK4 are Lipschitz in x with explicit constants
+    L (1 + hL/2) and L (1 + hL/2 + (hL)^2/6 + (hL)^3/24) whenever the field is L-Lipschitz *)
+Theorem C01_general_stability : forall (f : R -> R -> R) (h L : R), (0 <= h)%R -> (0 <= L)%R ->
+  (forall t x x' : R, Rabs (f t x - f t x') <= L * Rabs (x - x'))%R ->
+  forall t x x' : R,
+    (Rabs (Phi_RK2 f h t x - Phi_RK2 f h t x') <= Lip_RK2 h L * Rabs (x - x'))%R /\
+    (Rabs (Phi_RK4 f h t x - Phi_RK4 f h t x') <= Lip_RK4 h L * Rabs (x - x'))%R.
+Proof.
+  intros f h L Hh HL Hf t x x'.
+  exact (conj (Phi_RK2_lipschitz f h L Hh HL Hf t x x') (Phi_RK4_lipschitz f h L Hh HL Hf t x x')).
+Qed.
+Print Assumptions C01_general_stability.
+
+(** consistency + stability => convergence with the order of the local error, for any one-step method *)
+Theorem C01_general_convergence : forall (Phi : R -> R -> R) (h Lam t0 : R) (y : R -> R),
+  (0 < h)%R -> (0 <= Lam)%R ->
+  (forall t x x' : R, Rabs (Phi t x - Phi t x') <= Lam * Rabs (x - x'))%R ->
+  forall (n p : nat) (C T x0 : R), (0 <= C)%R -> x0 = y t0 -> (INR n * h = T)%R ->
+  (forall k : nat, (k < n)%nat ->
+     Rabs (y (t0 + INR (S k) * h) - y (t0 + INR k * h) - h * Phi (t0 + INR k * h) (y (t0 + INR k * h))) <= C * h ^ S p)%R ->
+  (Rabs (one_step_iter Phi h t0 n x0 - y (t0 + T)) <= exp (T * Lam) * T * C * h ^ p)%R.
+Proof. exact generic_order_p. Qed.
+Print Assumptions C01_general_convergence.
+
+(** Euler forward, COMPLETE: for every field L-Lipschitz in x and every twice differentiable solution y of
+    y' = f(t, y) with |y''| <= M on [t0, t0+T], n steps of size h = T/n end within exp(TL) T M/2 * h of y(t0+T):
+    first order, with an explicit constant; the bound is attained ([C01_EF_general_ex]) *)
+Theorem C01_EF_converges_general : forall (f : R -> R -> R) (y : R -> R) (h L M t0 T : R) (n : nat),
+  (0 < h)%R -> (0 <= L)%R -> (INR n * h = T)%R ->
+  (forall t x x' : R, Rabs (f t x - f t x') <= L * Rabs (x - x'))%R ->
+  (forall t : R, (t0 <= t <= t0 + T)%R -> Derive.ex_derive y t) ->
+  (forall t : R, (t0 <= t <= t0 + T)%R -> Derive.ex_derive (Derive.Derive y) t) ->
+  (forall t : R, (t0 <= t <= t0 + T)%R -> Derive.Derive y t = f t (y t)) ->
+  (forall t : R, (t0 <= t <= t0 + T)%R -> (Rabs (Derive.Derive_n y 2 t) <= M)%R) ->
+  (Rabs (one_step_iter (Phi_EF f) h t0 n (y t0) - y (t0 + T)) <= exp (T * L) * T * (M / 2) * h)%R.
+Proof. exact EF_converges_order1. Qed.
+Print Assumptions C01_EF_converges_general.
+Example C01_EF_general_ex : forall (n : nat) (h T : R), (0 < h)%R -> (INR n * h = T)%R ->
+  (Rabs (one_step_iter (Phi_EF (fun t _ : R => t)) h 0 n 0 - T ^ 2 / 2) <= T * / 2 * h)%R.
+Proof. exact EF_example. Qed.
+
+(** RK2 and RK4, PARTIAL: orders 2 and 4 for every L-Lipschitz field GIVEN the local truncation bound
+    C h^3 resp. C h^5 of the scheme along the exact solution.  That bound is what Taylor's theorem gives for
+    sufficiently smooth fields (the tableaux satisfy the order conditions, C01_tableau_orders); it is not
+    derived here for general f — it is proved for linear fields (C01_linear_convergence_EF, _RK2, _RK4) and as exact
+    quadrature (C01_rk_quadrature_exact).  Missing for the full statement: Butcher's theorem. *)
+Theorem C01_RK_converges_general_partial : forall (f : R -> R -> R) (y : R -> R) (h L C t0 T : R) (n : nat),
+  (0 < h)%R -> (0 <= L)%R -> (0 <= C)%R -> (INR n * h = T)%R ->
+  (forall t x x' : R, Rabs (f t x - f t x') <= L * Rabs (x - x'))%R ->
+  ((forall k : nat, (k < n)%nat ->
+      Rabs (y (t0 + INR (S k) * h) - y (t0 + INR k * h) - h * Phi_RK2 f h (t0 + INR k * h) (y (t0 + INR k * h))) <= C * h ^ 3)%R ->
+   (Rabs (one_step_iter (Phi_RK2 f h) h t0 n (y t0) - y (t0 + T)) <= exp (T * Lip_RK2 h L) * T * C * h ^ 2)%R) /\
+  ((forall k : nat, (k < n)%nat ->
+      Rabs (y (t0 + INR (S k) * h) - y (t0 + INR k * h) - h * Phi_RK4 f h (t0 + INR k * h) (y (t0 + INR k * h))) <= C * h ^ 5)%R ->
+   (Rabs (one_step_iter (Phi_RK4 f h) h t0 n (y t0) - y (t0 + T)) <= exp (T * Lip_RK4 h L) * T * C * h ^ 4)%R).
+Proof.
+  intros f y h L C t0 T n Hh HL HC HT Hf. split; intro H.
+  - exact (RK2_converges_order2 f y h L C t0 T n Hh HL HC HT Hf H).
+  - exact (RK4_converges_order4 f y h L C t0 T n Hh HL HC HT Hf H).
+Qed.
+Print Assumptions C01_RK_converges_general_partial.
+
+(** the rational model's steps ARE these real steps: for a velocity oracle whose x-component agrees through
+    Q2R with the real field at the fractional times of the scheme *)
+Theorem C01_model_steps_are_real_steps : forall (vel : Q -> Q -> Q -> Q * Q) (dtdx dtdy : Q) (f : R -> R -> R) (tk : R),
+  (forall s x y : Q, Q2R (fst (vel s x y)) = f (tk + Q2R s * Q2R dtdx)%R (Q2R x)) ->
+  forall x y : Q,
+    Q2R (fst (rk_generic vel dtdx dtdy tab_EF x y)) = (Q2R x + Q2R dtdx * Phi_EF f tk (Q2R x))%R /\
+    Q2R (fst (rk_generic vel dtdx dtdy tab_RK2 x y)) = (Q2R x + Q2R dtdx * Phi_RK2 f (Q2R dtdx) tk (Q2R x))%R /\
+    Q2R (fst (rk_generic vel dtdx dtdy tab_RK4 x y)) = (Q2R x + Q2R dtdx * Phi_RK4 f (Q2R dtdx) tk (Q2R x))%R.
+Proof.
+  intros vel dtdx dtdy f tk H x y.
+  exact (conj (model_EF_step vel dtdx dtdy f tk H x y)
+              (conj (model_RK2_step vel dtdx dtdy f tk H x y) (model_RK4_step vel dtdx dtdy f tk H x y))).
+Qed.
+Print Assumptions C01_model_steps_are_real_steps.
+
+(** ... and n Euler-forward steps of the MODEL converge with order 1 to the exact solution *)
+Theorem C01_model_EF_converges_general : forall (vel : Q -> Q -> Q -> Q * Q) (dtdx dtdy x0 y0 : Q) (f : R -> R -> R)
+    (y : R -> R) (L t0 T : R) (n : nat),
+  (0 < Q2R dtdx)%R -> (0 <= L)%R -> (INR n * Q2R dtdx = T)%R ->
+  (forall t x x' : R, Rabs (f t x - f t x') <= L * Rabs (x - x'))%R ->
+  (forall (k : nat) (s x y1 : Q), Q2R (fst (vel s x y1)) = f (t0 + INR k * Q2R dtdx + Q2R s * Q2R dtdx)%R (Q2R x)) ->
+  Q2R x0 = y t0 ->
+  forall M : R,
+  (forall t : R, (t0 <= t <= t0 + T)%R -> Derive.ex_derive y t) ->
+  (forall t : R, (t0 <= t <= t0 + T)%R -> Derive.ex_derive (Derive.Derive y) t) ->
+  (forall t : R, (t0 <= t <= t0 + T)%R -> Derive.Derive y t = f t (y t)) ->
+  (forall t : R, (t0 <= t <= t0 + T)%R -> (Rabs (Derive.Derive_n y 2 t) <= M)%R) ->
+  (Rabs (Q2R (fst (rk_iter vel dtdx dtdy tab_EF n x0 y0)) - y (t0 + T)) <= exp (T * L) * T * (M / 2) * Q2R dtdx)%R.
+Proof. exact model_EF_converges_order1. Qed.
+Print Assumptions C01_model_EF_converges_general.
